@@ -176,12 +176,20 @@ class Verifier(Engine, StmtMixin, ExprMixin, CallMixin, BuiltinMixin):
                     body = self.region_statements(node, c.region)
                     rep['region'] = f'L{body[0].lineno}-L{body[-1].end_lineno}: statements of {c.qualname} between the markers; ' \
                                     'everything before/after is outside this obligation set'
+                is_gen = any(isinstance(n, (ast.Yield, ast.YieldFrom)) for b_ in body for n in ast.walk(b_)) and not c.region
+                if is_gen:
+                    gty = parse_type(c.returns, self.reg.enums) if c.returns else None
+                    if not isinstance(gty, TSeq):
+                        raise Unsupported('generator function: the contract must declare returns Seq[...]')
+                    st.env['yielded'] = V(gty, z3.Empty(gty.sort()))
                 outs = self.exec_block(body, st)
                 npaths = 0
                 for o in outs:
                     npaths += 1
                     if o.kind in ('normal', 'return'):
                         val = o.val if o.kind == 'return' else NONE_V
+                        if is_gen:
+                            val = o.st.env['yielded']          # what the consumer sees: everything that was yielded
                         self.check_post(c, o, val, pre)
                     elif o.kind == 'raise':
                         self.check_raise(c, o, pre)
